@@ -11,6 +11,7 @@ assert s.count(old)==1, (p, s.count(old))
 open(p,'w').write(s.replace(old,new))
 PY
 cd /verif
+export AGSIM_TARGET_DIR=/verif/target-mut
 OUT=$(./check $ID --tier quick --no-evidence ${EXTRA:-} 2>&1); RC=$?
 echo "MUTANT $NAME: exit=$RC $(echo "$OUT" | grep -E '^VIOLATION|^HARNESS' | head -3 | cut -c1-400)"
 git -C /repo checkout -- .
